@@ -30,6 +30,12 @@ type c32Ans struct {
 	Hedge bool   `json:"h,omitempty"`
 	Kind  string `json:"k"` // exact short long whole200 whole206 status drop trunc wrong
 	K     int    `json:"n,omitempty"`
+	// F is how the end of the body is signalled: "" = declared Content-Length,
+	// "chunked" (handler flushes before writing), "close" (HTTP/1.0, connection
+	// close ends the body), "auto" (no explicit length: net/http declares it up to
+	// 2 KiB and chunks above). With anything but a declared length the client sees
+	// ContentLength = -1 and a short body ends with a clean EOF.
+	F string `json:"f,omitempty"`
 }
 
 type c32In struct {
@@ -129,12 +135,38 @@ func (e *c32Env) respond(w http.ResponseWriter, a c32Ans, start, end int64, tag 
 	}
 	w.Header().Set("X-Attempt", tag)
 	send := func(code int, body []byte) {
-		w.Header().Set("Content-Length", strconv.Itoa(len(body)))
+		cr := ""
 		if code == http.StatusPartialContent {
-			w.Header().Set("Content-Range", fmt.Sprintf("bytes %d-%d/%d", start, end, len(res)))
+			cr = fmt.Sprintf("bytes %d-%d/%d", start, end, len(res))
+			w.Header().Set("Content-Range", cr)
 		}
-		w.WriteHeader(code)
-		w.Write(body)
+		switch a.F {
+		case "chunked":
+			w.WriteHeader(code)
+			w.(http.Flusher).Flush()
+			h := len(body) / 2
+			if h > 0 {
+				w.Write(body[:h])
+				w.(http.Flusher).Flush()
+			}
+			w.Write(body[h:])
+		case "close":
+			c := c32Drop(w)
+			fmt.Fprintf(c, "HTTP/1.0 %d %s\r\nX-Attempt: %s\r\n", code, http.StatusText(code), tag)
+			if cr != "" {
+				fmt.Fprintf(c, "Content-Range: %s\r\n", cr)
+			}
+			fmt.Fprint(c, "\r\n")
+			c.Write(body)
+			c.Close()
+		case "auto":
+			w.WriteHeader(code)
+			w.Write(body)
+		default:
+			w.Header().Set("Content-Length", strconv.Itoa(len(body)))
+			w.WriteHeader(code)
+			w.Write(body)
+		}
 	}
 	switch a.Kind {
 	case "exact":
@@ -165,6 +197,14 @@ func (e *c32Env) respond(w http.ResponseWriter, a c32Ans, start, end int64, tag 
 		send(206, b)
 	case "trunc":
 		c := c32Drop(w)
+		if a.F == "chunked" { // chunked body cut off before its terminating chunk
+			fmt.Fprintf(c, "HTTP/1.1 206 Partial Content\r\nTransfer-Encoding: chunked\r\nX-Attempt: %s\r\nConnection: close\r\n\r\n", tag)
+			if h := chunk[:len(chunk)/2]; len(h) > 0 {
+				fmt.Fprintf(c, "%x\r\n%s\r\n", len(h), h)
+			}
+			c.Close()
+			return
+		}
 		decl := len(chunk)
 		if decl == 0 {
 			decl = 1
@@ -291,23 +331,46 @@ func c32MayAccept(k string) bool { return k == "exact" || k == "whole206" || k =
 func c32IsFail(k string) bool   { return !c32MayAccept(k) }
 
 func c32KindCoq(a c32Ans) string {
+	f := "C32.Declared"
+	switch a.F {
+	case "chunked":
+		f = "C32.Chunked"
+	case "close":
+		f = "C32.CloseDelim"
+	case "auto":
+		f = "C32.Auto"
+	}
 	switch a.Kind {
 	case "exact":
-		return "C32.KExact"
+		return App("C32.KExact", f)
 	case "short":
-		return App("C32.KShort", Nat(a.K))
+		return App("C32.KShort", f, Nat(a.K))
 	case "long":
-		return App("C32.KLong", Nat(a.K))
+		return App("C32.KLong", f, Nat(a.K))
 	case "whole200":
-		return "C32.KWhole200"
+		return App("C32.KWhole200", f)
 	case "whole206":
-		return "C32.KWhole206"
+		return App("C32.KWhole206", f)
 	case "status":
-		return App("C32.KStatus", N(uint64(a.K)))
+		return App("C32.KStatus", f, N(uint64(a.K)))
 	case "wrong":
-		return "C32.KWrong"
+		return App("C32.KWrong", f)
 	}
 	return "C32.KFail"
+}
+
+var c32Framings = []string{"", "chunked", "close", "auto"}
+
+func c32RandFraming(r *rand.Rand) string {
+	switch x := r.Intn(20); {
+	case x < 11:
+		return ""
+	case x < 15:
+		return "chunked"
+	case x < 18:
+		return "close"
+	}
+	return "auto"
 }
 
 func c32AttCoq(idx int, hedge bool) string { return Pair(Nat(idx), Bool(hedge)) }
@@ -602,6 +665,12 @@ func c32Run(in c32In) CaseOut {
 			hedges++
 		}
 		kinds[a.kind.Kind] = true
+		if a.kind.F != "" {
+			kinds[a.kind.Kind+"/"+a.kind.F] = true
+		}
+		if (a.kind.Kind == "short" || a.kind.Kind == "long") && (a.kind.F == "chunked" || a.kind.F == "close" || (a.kind.F == "auto" && a.end-a.start > 2100)) {
+			kinds["wrong-length-undeclared"] = true
+		}
 		if a.kind.Kind == "exact" {
 			if seenOK[a.idx] {
 				dup = true
@@ -676,6 +745,7 @@ func c32RandKind(r *rand.Rand, idx int, hedge bool, pFail float64) c32Ans {
 			a.K = r.Intn(3)
 		}
 	}
+	a.F = c32RandFraming(r)
 	return a
 }
 
@@ -793,6 +863,56 @@ func c32Gen(r *rand.Rand, n int, tier string) []c32In {
 			}
 		}
 	}
+	// wrong-length (and right-length) 206 bodies under every framing, at the first / middle / last chunk
+	for _, k := range []string{"short", "long", "exact", "whole206"} {
+		for _, f := range c32Framings {
+			for _, pos := range []int{0, 2, 3} {
+				in := c32Base(c32Res(r, 10), 3) // chunks 3,3,3,1: a short last chunk is an EMPTY body
+				c32AllExact(&in, 4, false)
+				in.Script[pos] = c32Ans{Idx: pos, Kind: k, F: f}
+				in.Pref = []string{"low", "high", "rand"}[(pos+len(f))%3]
+				add(in, "boundary-framing")
+			}
+		}
+	}
+	for _, k := range []string{"short", "long"} { // bodies above net/http's 2 KiB auto-length buffer, 100 bytes off
+		for _, f := range c32Framings {
+			for pos := 0; pos < 3; pos++ {
+				in := c32Base(c32Res(r, 6000), 2500)
+				c32AllExact(&in, 3, false)
+				in.Script[pos] = c32Ans{Idx: pos, Kind: k, K: 99, F: f}
+				for j := range in.Script {
+					if j != pos {
+						in.Script[j].F = c32Framings[(j+pos)%4]
+					}
+				}
+				add(in, "boundary-framing-large")
+			}
+		}
+	}
+	for _, f := range []string{"chunked", "close", "auto"} { // the speculative duplicate is the one with the wrong length; its original failed
+		for _, k := range []string{"short", "long"} {
+			for _, pos := range []int{0, 2, 3} {
+				in := c32Base(c32Res(r, 10), 3)
+				in.Mult, in.MaxHedges, in.Par, in.Pref = "tiny", 0, 16, "faillast"
+				c32AllExact(&in, 4, true)
+				in.Script[2*pos] = c32Ans{Idx: pos, Kind: "drop"}
+				in.Script[2*pos+1] = c32Ans{Idx: pos, Hedge: true, Kind: k, F: f}
+				add(in, "boundary-framing-duplicate")
+			}
+		}
+	}
+	for _, f := range c32Framings { // other routes: the plain GET, a bare status, a cut-off chunked body
+		in := c32Base(c32Res(r, 7), 3)
+		in.Head = "noranges"
+		in.Simple = c32Ans{Kind: "whole200", F: f}
+		add(in, "boundary-framing-simple")
+		in = c32Base(c32Res(r, 7), 3)
+		c32AllExact(&in, 3, false)
+		in.Script[1] = c32Ans{Idx: 1, Kind: "status", K: 206, F: f} // 206 with an empty body
+		in.Script[2] = c32Ans{Idx: 2, Kind: "trunc", F: f}
+		add(in, "boundary-framing-empty-206")
+	}
 	nFree := 40
 	if tier == "thorough" {
 		nFree = 300
@@ -822,6 +942,10 @@ func c32Gen(r *rand.Rand, n int, tier string) []c32In {
 		if r.Intn(25) == 0 {
 			size = r.Intn(2)
 		}
+		large := r.Intn(30) == 0 // chunk bodies above net/http's 2 KiB auto-length buffer
+		if large {
+			size = 2200 + r.Intn(4500)
+		}
 		var chunk int64
 		switch r.Intn(10) {
 		case 0:
@@ -839,6 +963,9 @@ func c32Gen(r *rand.Rand, n int, tier string) []c32In {
 		}
 		if chunk > 0 && int64(size)/chunk > int64(maxChunks) {
 			chunk = int64(size)/int64(maxChunks) + 1
+		}
+		if large && chunk > 0 && chunk < 2100 {
+			chunk = 2100 + int64(r.Intn(900))
 		}
 		in := c32Base(c32Res(r, size), chunk)
 		eff := chunk
@@ -865,7 +992,7 @@ func c32Gen(r *rand.Rand, n int, tier string) []c32In {
 		if r.Intn(8) == 0 {
 			in.Head = []string{"fail", "noranges", "nolen"}[r.Intn(3)]
 		}
-		in.Simple = c32Ans{Kind: "whole200"}
+		in.Simple = c32Ans{Kind: "whole200", F: c32RandFraming(r)}
 		if r.Intn(3) == 0 {
 			in.Simple = c32RandKind(r, 0, false, 0.8)
 		}
@@ -894,6 +1021,13 @@ func c32Gen(r *rand.Rand, n int, tier string) []c32In {
 				j &^= 1 // an original
 			}
 			in.Script[j] = c32RandKind(r, in.Script[j].Idx, in.Script[j].Hedge, 1)
+		}
+		if large {
+			for j := range in.Script {
+				if k := in.Script[j].Kind; k == "short" || k == "long" {
+					in.Script[j].K = r.Intn(150)
+				}
+			}
 		}
 		note := "random"
 		if nch > 0 && r.Intn(20) == 0 { // malformed stream: a server that lies with right-length bytes
